@@ -752,10 +752,88 @@ func (vc *VC) mapUpdate(st *State, m, k, v Val, mt *types.Map) {
 	vc.setHeap(st, names[n-1], sorts[n-1], sto(lh, m.L[0], ite(was, ol, app("bvadd", ol, bvLit(64, 1)))))
 }
 
+// Range over a map: the iterator is an object with a ghost position (Z!iterpos). The iteration visits
+// len(m) entries (the map must not change while it is iterated: obligation maprange.unmodified at every next);
+// each visited key is present and comes with its value. That the keys are pairwise different is not modelled
+// (less is assumed, nothing unsound).
+type mapIter struct {
+	ref   string
+	m     Val
+	mt    *types.Map
+	heaps map[string]string // map heap terms at the time of the range statement
+}
+
+func iterposHeap(vc *VC) (string, string) {
+	hn := ghostHeapName("iterpos")
+	hs := arrSort(sBV64, sBV64)
+	vc.ghostSorts[hn] = hs
+	return hn, hs
+}
+
 func (vc *VC) execRange(fr *Frame, x *ssa.Range, st *State) {
-	vc.unsupported("range over map/string in %s (no iteration model yet)", fr.fn)
+	mt, ok := x.X.Type().Underlying().(*types.Map)
+	if !ok {
+		vc.unsupported("range over string in %s (no iteration model yet)", fr.fn)
+	}
+	ref := vc.allocRef(st)
+	m := vc.value(fr, x.X)
+	hn, hs := iterposHeap(vc)
+	vc.setHeap(st, hn, hs, sto(vc.heapTerm(st, hn, hs), ref, bvLit(64, 0)))
+	it := &mapIter{ref: ref, m: m, mt: mt, heaps: map[string]string{}}
+	names, sorts := vc.mapHeaps(st, mt)
+	for i := range names {
+		it.heaps[names[i]] = sel(vc.heapTerm(st, names[i], sorts[i]), m.L[0])
+	}
+	if vc.mapIters == nil {
+		vc.mapIters = map[ssa.Value]*mapIter{}
+	}
+	vc.mapIters[x] = it
+	vc.trusted["range over a map visits exactly len(m) entries, each a present key with its value, provided the map is not modified meanwhile (checked); the order and the pairwise distinctness of the keys are not modelled"] = true
+	fr.vals[x] = Val{T: x.Type(), L: []string{ref}}
+}
+
+// iterPos: the number of entries the iterator of the map-range loop headed by li has delivered so far.
+func (vc *VC) iterPos(st *State, li *loopInfo) (string, bool) {
+	for _, instr := range li.header.Instrs {
+		if nx, ok := instr.(*ssa.Next); ok {
+			if it, ok := vc.mapIters[nx.Iter]; ok {
+				hn, hs := iterposHeap(vc)
+				return sel(vc.heapTerm(st, hn, hs), it.ref), true
+			}
+		}
+	}
+	return "", false
 }
 
 func (vc *VC) execNext(fr *Frame, x *ssa.Next, st *State) {
-	vc.unsupported("next in %s", fr.fn)
+	it, ok := vc.mapIters[x.Iter]
+	if !ok || x.IsString {
+		vc.unsupported("next in %s", fr.fn)
+	}
+	names, sorts := vc.mapHeaps(st, it.mt)
+	var same []string
+	for i := range names {
+		now := sel(vc.heapTerm(st, names[i], sorts[i]), it.m.L[0])
+		if now != it.heaps[names[i]] {
+			same = append(same, eq(now, it.heaps[names[i]]))
+		}
+	}
+	if len(same) > 0 {
+		vc.oblige(st, "maprange", "unmodified", and(same...), x.Pos(), vc.safetyProps)
+	}
+	hn, hs := iterposHeap(vc)
+	h := vc.heapTerm(st, hn, hs)
+	pos := vc.define("itp", sBV64, sel(h, it.ref))
+	n := vc.define("itn", sBV64, vc.mapLen(st, it.m, it.mt))
+	vc.assume(st.cond, and(app("bvsle", bvLit(64, 0), n), app("bvslt", n, bvLit(64, 1<<40)), app("bvsle", bvLit(64, 0), pos), app("bvsle", pos, n)))
+	okv := vc.define("itok", sBool, app("bvslt", pos, n))
+	key := freshVal(vc, st, it.mt.Key(), "itk")
+	lk := vc.mapLookupOk(st, it.m, key, it.mt)
+	vc.assume(st.cond, imp(okv, lk.L[len(lk.L)-1]))
+	vc.setHeap(st, hn, hs, sto(h, it.ref, ite(okv, app("bvadd", pos, bvLit(64, 1)), pos)))
+	vc.dirty[hn] = true
+	out := Val{T: x.Type(), L: []string{okv}}
+	out.L = append(out.L, key.L...)
+	out.L = append(out.L, lk.L[:len(lk.L)-1]...)
+	vc.setVal(fr, x, out)
 }
